@@ -9,8 +9,11 @@ for id in $ids; do
   prop=$(python3 -c "import json;print(json.load(open('$d/meta.json'))['property'])")
   if ! git -C /repo diff --quiet; then echo "/repo has local changes; refusing"; exit 2; fi
   git -C /repo apply $d/patch.diff || { echo "$id PATCH-DOES-NOT-APPLY"; continue; }
+  # the evidence file describes the unchanged tree: keep it aside while the changed tree is checked
+  cp evidence/$prop.json /verif/.build/evidence_$prop.keep 2>/dev/null
   out=$(./check $prop 2>&1); rc=$?
   git -C /repo checkout -- .
+  [ -f /verif/.build/evidence_$prop.keep ] && mv /verif/.build/evidence_$prop.keep evidence/$prop.json
   nviol=$(echo "$out" | grep -c '^VIOLATION')
   first=$(echo "$out" | grep '^VIOLATION' | head -1 | cut -c1-200)
   sum=$(echo "$out" | grep -E "^$prop tier" | tail -1)
